@@ -496,6 +496,9 @@ fn operand_text(o: &str) -> String {
         "e" => "/tmp/a/e".into(),
         "E" => "${u?}".into(),
         "t" => "/tmp/t".into(),
+        // a pathname with a trailing slash whose last component does not exist (nothing creates /tmp/q):
+        // `resolve_file` says EISDIR when asked to create it, ENOENT otherwise
+        "qs" => "/tmp/q/".into(),
         // a pathname with a NUL byte, a pathname out of a command substitution
         "N" => "$'/tmp/a\\0b'".into(),
         "ca" => "$(echo /tmp/a)".into(),
@@ -912,7 +915,7 @@ const NEST_KINDS: [&str; 10] =
 /// kinds whose built-in asks to retain the redirections (`should_retain_redirs`)
 const EXEC_FAMILY: [&str; 6] = ["exec", "cmdexec", "execnf", "execne", "cmdexecnf", "guardkeep"];
 const FILE_OPS: [&str; 5] = ["in", "out", "clob", "app", "rw"];
-const FILE_OPERANDS: [&str; 13] = ["a", "b", "m", "n", "d", "e", "E", "t", "N", "ca", "cm", "c3", "c5m"];
+const FILE_OPERANDS: [&str; 14] = ["a", "b", "m", "n", "d", "e", "E", "t", "N", "ca", "cm", "c3", "c5m", "qs"];
 
 fn gen_redir(r: &mut Rng) -> String {
     let fd = match r.below(10) {
@@ -1353,6 +1356,25 @@ fn cs_status_cases() -> Vec<String> {
     v
 }
 
+/// a pathname with a trailing slash (`/tmp/q/`, nothing named /tmp/q): every operator, noclobber on and off, on
+/// the kinds that show the error cause / the table / whether the shell goes on, after a redirection that
+/// succeeded and before one that would
+fn slash_cases() -> Vec<String> {
+    let mut v = vec![];
+    for kind in ["guard", "guardkeep", "regular", "special", "exec", "empty", "func", "brace", "notfound", "nest"] {
+        for op in FILE_OPS {
+            for nc in [0, 1] {
+                let sep = if kind == "nest" { "0 nest -; " } else { "" };
+                v.push(format!("{nc} - - | {kind} | {sep}1 {op} qs | regular | "));
+                v.push(format!("{nc} - 3b,11c | {kind} | {sep}2 out a; 0 {op} qs; 1 out m | regular | 1 out b"));
+                v.push(format!("{nc} 4 - | {kind} | {sep}1 {op} qs | special | "));
+                v.push(format!("{nc} - - i | {kind} | {sep}3 {op} qs | regular | "));
+            }
+        }
+    }
+    v
+}
+
 fn main() {
     quiet_panics();
     let o = Opts::from_args();
@@ -1375,6 +1397,7 @@ fn main() {
     all.extend(copy_order_cases(o.thorough()));
     all.extend(nested_cases(o.thorough()));
     all.extend(cs_status_cases());
+    all.extend(slash_cases());
     for c in &all {
         if index % o.shard.1 == o.shard.0 {
             let (obs, oracle) = run_guarded(c);
